@@ -16,7 +16,7 @@ static const char * const headers[] = { "*CLS", "*ESE", "*ESE?", "*ESR?", "*IDN?
 
 static void gen_number(vh_rng_t * r, stream_t * s) {
     static const char * const nums[] = { "0", "1", "-1", "+5", "12.5", ".5", "5.", "1e3", "1E+3", "1 E 3", "1e", "1e+", "-", "+", ".", "9999999999999999999999", "1e400", "-1e-400", "0x10", "1.2.3",
-        "#H", "#HFF", "#hffffffffffffffffff", "#Q777", "#Q8", "#B101", "#B2", "#", "4294967296", "-2147483649", "18446744073709551616", "1e-320", "00000000000000000000000000000001", "99999999", "100000000", "999999999", "1000000000", "4294967295" };
+        "#H", "#HFF", "#hffffffffffffffffff", "#Q777", "#Q8", "#B101", "#B2", "#", "4294967296", "-2147483649", "18446744073709551616", "1e-320", "00000000000000000000000000000001", "99999999", "100000000", "999999999", "1000000000", "4294967295", "4294967296", "10000000000", "99999999999", "18446744073709551615" };
     static const char * const sufs[] = { "", "V", " V", "MV", " kohm", "HZ", "FOO", " E", "V/S", "V.S-1", "/", "M-", "S2", " DBM", "mhz", "EV" };
     if (vh_chance(r, 1, 6)) {
         /* long decimal tokens with the white space 488.2 allows around the exponent mark: total non-blank length swept around
